@@ -1,2 +1,93 @@
-(* C14 - statements only (proofs pending). *)
+(* C14 - each file has at most one producing step.  Statements only. *)
+From Coq Require Import String.
 From N2 Require Import Model.All.
+From N2 Require Import Proofs.EvalFiles Proofs.GraphDedup Proofs.GraphAddBuild Proofs.GraphLoad.
+
+(* 1. BuildOuts::remove_duplicates (after the fix for F12) *)
+Theorem C14_remove_duplicates_spec : forall ids e, e <= length ids -> remove_duplicates true ids e = (dedup ids, length (dedup (firstn e ids))).
+Proof. exact remove_duplicates_spec. Qed.
+Print Assumptions C14_remove_duplicates_spec.
+
+Theorem C14_dedup_meaning : forall l, NoDup (dedup l) /\ (forall x, In x (dedup l) <-> In x l) /\ (NoDup l -> dedup l = l) /\ (forall x, dedup (l ++ [x]) = if mem_nat x l then dedup l else dedup l ++ [x]).
+Proof. exact dedup_meaning. Qed.
+Print Assumptions C14_dedup_meaning.
+
+Theorem C14_repeats_meaning : forall l, length (dedup l) + length (repeats l) = length l /\ (NoDup l -> repeats l = []) /\ (forall x, repeats (l ++ [x]) = if mem_nat x l then repeats l ++ [x] else repeats l).
+Proof. exact repeats_meaning. Qed.
+Print Assumptions C14_repeats_meaning.
+
+Theorem C14_remove_duplicates_nodup : forall ids e, NoDup (fst (remove_duplicates true ids e)).
+Proof. exact remove_duplicates_nodup. Qed.
+Print Assumptions C14_remove_duplicates_nodup.
+
+Theorem C14_remove_duplicates_same_set : forall ids e x, In x (fst (remove_duplicates true ids e)) <-> In x ids.
+Proof. exact remove_duplicates_same_set. Qed.
+Print Assumptions C14_remove_duplicates_same_set.
+
+Theorem C14_remove_duplicates_explicit_le : forall ids e, e <= length ids -> snd (remove_duplicates true ids e) <= length (fst (remove_duplicates true ids e)).
+Proof. exact remove_duplicates_explicit_le. Qed.
+Print Assumptions C14_remove_duplicates_explicit_le.
+
+Theorem C14_remove_duplicates_explicit_prefix : forall ids e, e <= length ids -> firstn (snd (remove_duplicates true ids e)) (fst (remove_duplicates true ids e)) = dedup (firstn e ids).
+Proof. exact remove_duplicates_explicit_prefix. Qed.
+Print Assumptions C14_remove_duplicates_explicit_prefix.
+
+(* 2. the pinned code (F12) *)
+Theorem C14_remove_duplicates_pinned_refuted : exists ids e, e <= length ids /\ length (fst (remove_duplicates false ids e)) < snd (remove_duplicates false ids e).
+Proof. exact remove_duplicates_pinned_refuted. Qed.
+Print Assumptions C14_remove_duplicates_pinned_refuted.
+
+(* 3. the loader invariant *)
+Theorem C14_LInv_meaning : forall l, LInv l <-> (forall i f p, nth_error (l_files l) i = Some f -> lf_input f = Some p -> exists b, nth_error (l_builds l) p = Some b /\ In i (lb_outs b)) /\ (forall p b o, nth_error (l_builds l) p = Some b -> In o (lb_outs b) -> exists f, nth_error (l_files l) o = Some f /\ lf_input f = Some p) /\ (forall p b, nth_error (l_builds l) p = Some b -> NoDup (lb_outs b) /\ lb_explicit_outs b <= length (lb_outs b) /\ (forall i, In i (lb_ins b) -> i < length (l_files l)) /\ (forall o, In o (lb_outs b) -> o < length (l_files l))).
+Proof. exact LInv_meaning. Qed.
+Print Assumptions C14_LInv_meaning.
+
+Theorem C14_LInv_unique_producer : forall l, LInv l -> forall p1 b1 p2 b2 o, nth_error (l_builds l) p1 = Some b1 -> nth_error (l_builds l) p2 = Some b2 -> In o (lb_outs b1) -> In o (lb_outs b2) -> p1 = p2.
+Proof. exact LInv_unique_producer. Qed.
+Print Assumptions C14_LInv_unique_producer.
+
+Theorem C14_graph_add_build_LInv : forall l b l', LInv l -> (forall i, In i (lb_ins b) -> i < length (l_files l)) -> lb_explicit_outs b <= length (lb_outs b) -> graph_add_build true l b = Ok l' -> LInv l'.
+Proof. exact graph_add_build_LInv. Qed.
+Print Assumptions C14_graph_add_build_LInv.
+
+Theorem C14_loader_add_build_LInv : forall l filename fvars pb l', LInv l -> pb_explicit_outs pb <= length (pb_outs pb) -> loader_add_build true l filename fvars pb = Ok l' -> LInv l'.
+Proof. exact loader_add_build_LInv. Qed.
+Print Assumptions C14_loader_add_build_LInv.
+
+Theorem C14_parser_explicit_outs : forall fixed fuel s vs pb vs' s', parser_read fixed fuel s vs = SOk (Some (SBuild pb), vs') s' -> pb_explicit_outs pb <= length (pb_outs pb).
+Proof. exact parser_read_build. Qed.
+Print Assumptions C14_parser_explicit_outs.
+
+Theorem C14_unique_producer : forall depth fs name text l, load_manifest true depth fs name text = Ok l -> LInv l.
+Proof. exact load_manifest_LInv. Qed.
+Print Assumptions C14_unique_producer.
+
+(* 4. a second producer is rejected, citing both statements *)
+Theorem C14_second_producer_rejected : forall fixed l b pre o post f prev, LInv l -> lb_outs b = pre ++ o :: post -> (forall o', In o' pre -> exists f', nth_error (l_files l) o' = Some f' /\ lf_input f' = None) -> nth_error (l_files l) o = Some f -> lf_input f = Some prev -> exists pb, nth_error (l_builds l) prev = Some pb /\ In o (lb_outs pb) /\ graph_add_build fixed l b = Err (loc_text (lb_file b) (lb_line b) ++ bs ": " ++ str_debug (lf_name f) ++ bs " is already an output at " ++ loc_text (lb_file pb) (lb_line pb)).
+Proof. exact second_producer_rejected. Qed.
+Print Assumptions C14_second_producer_rejected.
+
+Theorem C14_any_second_producer_rejected : forall fixed l b o f prev, LInv l -> (forall o', In o' (lb_outs b) -> o' < length (l_files l)) -> In o (lb_outs b) -> nth_error (l_files l) o = Some f -> lf_input f = Some prev -> exists m, graph_add_build fixed l b = Err m.
+Proof. exact any_second_producer_rejected. Qed.
+Print Assumptions C14_any_second_producer_rejected.
+
+Theorem C14_build_error_aborts_load : forall fixed rec fs buf filename n l s vs pb vs1 s1 m, parser_read fixed (parse_fuel buf) s vs = SOk (Some (SBuild pb), vs1) s1 -> loader_add_build fixed l filename vs1 pb = Err m -> stmts_loop fixed rec fs buf filename (S n) l s vs = Err m.
+Proof. exact stmts_loop_build_err. Qed.
+Print Assumptions C14_build_error_aborts_load.
+
+Theorem C14_second_producer_example : load_manifest true 5 [] (bs "build.ninja") (ln "rule r" (ln "  command = c" (ln "build o: r" (ln "build p ./o: r" [])))) = Err (bs "build.ninja:4: ""o"" is already an output at build.ninja:3").
+Proof. exact second_producer_example. Qed.
+Print Assumptions C14_second_producer_example.
+
+Theorem C14_second_producer_across_files_example : load_manifest true 5 [(bs "sub.ninja", ln "build d/../o: r" [])] (bs "build.ninja") (ln "rule r" (ln "  command = c" (ln "build o: r" (ln "subninja sub.ninja" [])))) = Err (bs "sub.ninja:1: ""o"" is already an output at build.ninja:3").
+Proof. exact second_producer_across_files_example. Qed.
+Print Assumptions C14_second_producer_across_files_example.
+
+(* 5. an output repeated within one statement *)
+Theorem C14_repeat_within_statement : forall l b, LInv l -> (forall i, In i (lb_ins b) -> i < length (l_files l)) -> (forall o, In o (lb_outs b) -> exists f, nth_error (l_files l) o = Some f /\ lf_input f = None) -> lb_explicit_outs b <= length (lb_outs b) -> exists l' b', graph_add_build true l b = Ok l' /\ LInv l' /\ l_builds l' = l_builds l ++ [b'] /\ lb_outs b' = dedup (lb_outs b) /\ lb_explicit_outs b' = length (dedup (firstn (lb_explicit_outs b) (lb_outs b))) /\ lb_ins b' = lb_ins b /\ lb_cmdline b' = lb_cmdline b /\ lb_file b' = lb_file b /\ lb_line b' = lb_line b /\ l_warnings l' = l_warnings l ++ map (fun o => bs "n2: warn: " ++ loc_text (lb_file b) (lb_line b) ++ bs ": " ++ str_debug (file_nm l o) ++ bs " is repeated in output list") (repeats (lb_outs b)).
+Proof. exact repeat_within_statement. Qed.
+Print Assumptions C14_repeat_within_statement.
+
+Theorem C14_repeat_example : exists l b, load_manifest true 5 [] (bs "build.ninja") (ln "rule r" (ln "  command = c" (ln "build o o | ./o p o: r" []))) = Ok l /\ l_builds l = [b] /\ map (file_nm l) (lb_outs b) = [bs "o"; bs "p"] /\ lb_explicit_outs b = 1 /\ l_warnings l = [bs "n2: warn: build.ninja:3: ""o"" is repeated in output list"; bs "n2: warn: build.ninja:3: ""o"" is repeated in output list"; bs "n2: warn: build.ninja:3: ""o"" is repeated in output list"].
+Proof. exact repeat_example. Qed.
+Print Assumptions C14_repeat_example.
